@@ -6,18 +6,23 @@
    the Go driver.                                                                                   *)
 EXTENDS Provenance, TLC, Json
 CONSTANTS MaxLen, GenOn
-VARIABLES kind, owner, classes
+VARIABLES kind, owner, classes, place
+(* where the listing is served: by the owner's host under its own id ("own"); by another host, without an
+   id of its own, named by URL in the owner's document ("foreign_anon"); or the same reached through a
+   redirect from the owner's host ("redirect_anon").  Entries embedded there are that other host's word. *)
+Places == {"own", "foreign_anon", "redirect_anon"}
 
 Init == /\ kind \in {"outbox", "replies"} /\ owner \in {"path", "query"}
         /\ classes \in UNION {[1..n -> IF kind = "outbox" THEN OutboxClasses ELSE ReplyClasses] : n \in 0..MaxLen}
         /\ (kind = "replies" => owner = "path")
-Next == UNCHANGED <<kind, owner, classes>>
-Spec == Init /\ [][Next]_<<kind, owner, classes>>
+        /\ place \in Places /\ (place # "own" => Len(classes) < MaxLen /\ owner = "path")
+Next == UNCHANGED <<kind, owner, classes, place>>
+Spec == Init /\ [][Next]_<<kind, owner, classes, place>>
 
 (* the wrappers as coded: construct the entry (any failure => error item), then compare identifiers *)
 Constructs(c) == c \notin {"fetch_fails", "not_activity", "not_post", "forged_author"}
 IdentityMatches(c) == c \in {"legit_emb", "legit_ref", "legit_actor_emb", "legit_noid", "legit_stub", "legit_announce"}
 ShownM == [i \in 1..Len(classes) |-> IF Constructs(classes[i]) /\ IdentityMatches(classes[i]) THEN "genuine" ELSE "error"]
 Holds == ListingOK(classes, ShownM)
-GenEmit == GenOn => PrintT("GEN " \o ToJson([kind |-> kind, owner |-> owner, classes |-> classes]))
+GenEmit == GenOn => PrintT("GEN " \o ToJson([kind |-> kind, owner |-> owner, classes |-> classes, place |-> place]))
 =============================================================================
